@@ -28,3 +28,6 @@ def run(ctx):
     ctx.floor("Q11", 1)
     for rule, n in (("Q1", 2), ("Q2", 2), ("Q3", 2), ("Q4", 6), ("Q5", 6), ("Q6", 3), ("Q7", 2), ("Q8", 1), ("Q9", 2), ("Q10", 2)):
         ctx.floor(rule, n)
+    # the once-only marks and the stages belong to one queue: nothing mutable is shared through the class body
+    from ..engines import statepickle as R
+    R.r5b_no_class_level_state(ctx, list(ctx.P.subclasses(ctx.P.need_class("CSSQueue"), strict=False)))
